@@ -12,9 +12,9 @@ verus! {
 /*@ import unit=U-BUF @*/
 /*@ import unit=U-UTIL @*/
 /*@ include path=std_model2.rs @*/
-/*@ include path=text_model.rs @*/
 /*@ include path=wire_model.rs @*/
 /*@ include path=net_model.rs @*/
+/*@ include path=ext_model.rs @*/
 //@ body-begin
 
 // ---------------- types (verbatim; derives replaced) ----------------
@@ -83,6 +83,12 @@ spec {
     ensures r.header == 0xFFFF_FFFFu32, r.kind == kind, r.payload == payload,
 }
 @*/
+// contract discharged by Kani on the real function (complete: loop-free over symbolic kind and payload bytes)
+/*@ fn file=crates/lib/src/protocols/valve/types.rs impl="impl Packet" name=to_bytes props=C09 assume=kani:valve_packet_to_bytes
+spec {
+    ensures r@ == enc_u32(false, self.header).push(self.kind) + self.payload@,   // header big-endian, kind, payload
+}
+@*/
 /*@ fn file=crates/lib/src/protocols/valve/types.rs impl="impl Packet" name=new_from_bufferer
 spec {
     requires old(buffer).wf(),
@@ -140,6 +146,207 @@ spec {
 }
 body_start {
     broadcast use group_text, group_wire;
+}
+@*/
+
+// bzip2 + crc32 (both assumed): the size/crc comparison logic is what is proved here
+/*@ fn file=crates/lib/src/protocols/valve/protocol.rs impl="impl SplitPacket" name=get_payload props=C02,C01,C13
+use R1 R17:self.payload@.len() R18
+spec {
+    ensures
+        self.decompressed is None ==> r is Ok && r->Ok_0@ == self.payload@,
+        self.decompressed is Some && r is Ok ==>
+            r->Ok_0@.len() == self.decompressed->Some_0.0 && crc32(r->Ok_0@) == self.decompressed->Some_0.1
+            && r->Ok_0@ == bz_decompress(self.payload@, self.decompressed->Some_0.0 as nat),
+        r is Err ==> r->Err_0.kind == Decompress,
+}
+body_start {
+    broadcast use group_alloc;
+}
+@*/
+}
+
+/*@ item file=crates/lib/src/protocols/valve/types.rs kind=enum name=Request
+attrs {
+#[derive(PartialEq, Eq, Structural, Clone, Copy)]
+}
+@*/
+/// A2S request payloads (Valve wiki): A2S_INFO carries "Source Engine Query\0", the others a -1 challenge
+pub open spec fn default_payload(k: Request) -> Seq<u8> {
+    match k {
+        Request::Info => seq![0x53u8, 0x6F, 0x75, 0x72, 0x63, 0x65, 0x20, 0x45, 0x6E, 0x67, 0x69, 0x6E, 0x65, 0x20, 0x51, 0x75, 0x65, 0x72, 0x79, 0x00],
+        _ => seq![0xFFu8, 0xFF, 0xFF, 0xFF],
+    }
+}
+impl Request {
+/*@ fn file=crates/lib/src/protocols/valve/types.rs impl="impl Request" name=get_default_payload props=C09 assume=kani:valve_default_payload
+spec {
+    ensures r@ == default_payload(self),
+}
+@*/
+}
+/*@ item file=crates/lib/src/protocols/valve/protocol.rs kind=struct name=ValveProtocol @*/
+/*@ item file=crates/lib/src/protocols/valve/protocol.rs kind=static name=PACKET_SIZE @*/
+
+pub proof fn lemma_be_ffffffff()
+    ensures enc_u32(false, 0xFFFF_FFFFu32) == seq![0xFFu8, 0xFFu8, 0xFFu8, 0xFFu8]
+{
+    assert(0xFFFF_FFFFu32 & 0xff == 0xff && (0xFFFF_FFFFu32 >> 8) & 0xff == 0xff && (0xFFFF_FFFFu32 >> 16) & 0xff == 0xff && (0xFFFF_FFFFu32 >> 24) & 0xff == 0xff) by (bit_vector);
+    assert(enc_u32(false, 0xFFFF_FFFFu32) =~= seq![0xFFu8, 0xFFu8, 0xFFu8, 0xFFu8]);
+}
+
+/// R8:sort_by_field helper for `chunk_packets.sort_by(|a, b| a.number.cmp(&b.number))` (body is the idiom; spec assumed:
+/// the result is a permutation of the input, ordered by `number`)
+pub open spec fn sorted_by_number(v: Seq<SplitPacket>) -> bool {
+    forall|i: int, j: int| 0 <= i <= j < v.len() ==> v[i].number <= v[j].number
+}
+#[verifier::external_body]
+pub fn idiom_sort_by_number(v: &mut Vec<SplitPacket>)
+    ensures
+        final(v)@.len() == old(v)@.len(),
+        final(v)@.to_multiset() == old(v)@.to_multiset(),
+        sorted_by_number(final(v)@),
+{ v.sort_by(|a, b| a.number.cmp(&b.number)) }
+
+/// the A2S request datagram: FF FF FF FF, kind, payload
+pub open spec fn a2s_request(kind: u8, payload: Seq<u8>) -> Seq<u8> { seq![0xFFu8, 0xFFu8, 0xFFu8, 0xFFu8].push(kind) + payload }
+
+impl ValveProtocol {
+/*@ fn file=crates/lib/src/protocols/valve/protocol.rs impl="impl ValveProtocol" name=receive props=C01,C13,C02,C08
+use R16 R17 R18 R8:sort_by_field R8:extend_vec
+fn_attrs {
+#[verifier::loop_isolation(false)]
+}
+spec {
+    requires buffer_size <= 65535,
+    ensures
+        final(self).socket.sent() == old(self).socket.sent(),
+        final(self).retry_count == old(self).retry_count,
+        final(self).socket.pending() <= old(self).socket.pending(),
+        final(self).socket.recvd() >= old(self).socket.recvd(),
+        r is Ok ==> final(self).socket.recvd() >= old(self).socket.recvd() + 1
+                 && final(self).socket.pending() < old(self).socket.pending(),
+}
+body_start {
+    broadcast use group_alloc;
+}
+loop 1 {
+    invariant
+        self.socket.sent() == old(self).socket.sent(), self.retry_count == old(self).retry_count,
+        self.socket.recvd() >= old(self).socket.recvd() + 1, self.socket.pending() < old(self).socket.pending(),
+}
+loop 2 {
+    invariant
+        self.socket.sent() == old(self).socket.sent(), self.retry_count == old(self).retry_count,
+        self.socket.recvd() >= old(self).socket.recvd() + 1, self.socket.pending() < old(self).socket.pending(),
+}
+@*/
+
+// C09: the first datagram is the request; after every 0x41 ('A') reply exactly one datagram is sent, which carries
+// the challenge bytes of that reply (A2S_INFO: after the default payload); nothing else is sent.
+/*@ fn file=crates/lib/src/protocols/valve/protocol.rs impl="impl ValveProtocol" name=get_request_data_impl props=C09,C01,C13,C10
+use R8:concat2 R21:Request@crates/lib/src/protocols/valve/types.rs
+fn_attrs {
+#[verifier::loop_isolation(false)]
+}
+spec {
+    ensures
+        final(self).retry_count == old(self).retry_count,
+        // at least the request itself was (tried to be) sent, and every send is a well-formed request of this kind
+        r is Ok ==> final(self).socket.sent().len() >= old(self).socket.sent().len() + 1
+                 && final(self).socket.sent()[old(self).socket.sent().len() as int] == a2s_request(kind, payload@),
+        // C13: requests sent <= 1 + datagrams received
+        final(self).socket.sent().len() - old(self).socket.sent().len() <= 1 + (final(self).socket.recvd() - old(self).socket.recvd()),
+}
+body_start {
+    broadcast use lemma_dec_enc_u32, lemma_enc_len_u32;
+    let ghost sent0 = self.socket.sent();
+    let ghost recvd0 = self.socket.recvd();
+    proof { lemma_be_ffffffff(); }
+}
+loop 1 {
+    invariant
+        self.retry_count == old(self).retry_count,
+        self.socket.sent().len() >= sent0.len() + 1,
+        self.socket.sent()[sent0.len() as int] == a2s_request(kind, payload@),
+        self.socket.sent().len() - sent0.len() <= (self.socket.recvd() - recvd0),
+    decreases self.socket.pending(),
+}
+before "self.socket.send(&challenge_packet)?;" {
+    // challenge echo: the datagram about to be sent is the request of the same kind carrying exactly the bytes of the
+    // challenge reply just received
+    assert(challenge_packet@ == a2s_request(kind, if kind == 0x54u8 { default_payload(Request::Info) + challenge@ } else { challenge@ }));
+}
+@*/
+}
+
+// ---------------- A2S_INFO, obsolete GoldSrc layout (Valve wiki "Obsolete GoldSource Response") ----------------
+// (the address "ip:port" is written as its first byte + the remaining bytes: the parser skips one byte before reading it)
+// payload after the 'm' kind byte: Address, Name, Map, Folder, Game strings; Players, Max, Protocol bytes; Server type
+// 'D'/'L'/'P'; Environment 'L'/'W'; Visibility; Mod; [Link, Download Link strings, NULL byte, Version long, Size long,
+// Type byte, DLL byte]; VAC; Bots
+pub struct GoldInfo {
+    pub addr_first: u8, pub addr_rest: Seq<char>, pub name: Seq<char>, pub map: Seq<char>, pub folder: Seq<char>, pub game: Seq<char>,
+    pub players: u8, pub max_players: u8, pub protocol: u8, pub server_type: u8, pub environment: u8, pub visibility: u8,
+    pub is_mod: u8, pub link: Seq<char>, pub download_link: Seq<char>, pub version: u32, pub size: u32, pub mod_type: u8, pub dll: u8,
+    pub vac: u8, pub bots: u8,
+}
+pub open spec fn enc_gold_mod(s: GoldInfo, tail: Seq<u8>) -> Seq<u8> {
+    if s.is_mod == 1 {
+        rn!(cstr(s.link); cstr(s.download_link); seq![0u8]; enc_u32(true, s.version); enc_u32(true, s.size); seq![s.mod_type]; seq![s.dll]; tail)
+    } else { tail }
+}
+pub open spec fn enc_gold_info(s: GoldInfo) -> Seq<u8> {
+    rn!(seq![s.addr_first]; cstr(s.addr_rest); cstr(s.name); cstr(s.map); cstr(s.folder); cstr(s.game); seq![s.players]; seq![s.max_players];
+        seq![s.protocol]; seq![s.server_type]; seq![s.environment]; seq![s.visibility]; seq![s.is_mod];
+        enc_gold_mod(s, rn!(seq![s.vac]; seq![s.bots]; Seq::empty())))
+}
+pub open spec fn gold_valid(s: GoldInfo) -> bool {
+    no_nul(s.addr_rest) && no_nul(s.name) && no_nul(s.map) && no_nul(s.folder) && no_nul(s.game) && no_nul(s.link) && no_nul(s.download_link)
+    && (s.server_type == 68 || s.server_type == 76 || s.server_type == 80) && (s.environment == 76 || s.environment == 87)
+}
+pub open spec fn gold_server(b: u8) -> Server { if b == 68 { Server::Dedicated } else if b == 76 { Server::NonDedicated } else { Server::TV } }
+pub open spec fn gold_env(b: u8) -> Environment { if b == 76 { Environment::Linux } else { Environment::Windows } }
+
+impl ValveProtocol {
+/*@ fn file=crates/lib/src/protocols/valve/protocol.rs impl="impl ValveProtocol" name=get_goldsrc_server_info props=C02,C01
+use R2
+spec {
+    requires old(buffer).wf(),
+    ensures
+        final(buffer).wf(), final(buffer).bytes() == old(buffer).bytes(),
+        // left inverse of the documented layout (the address is "ip:port", never empty: see the known finding for "")
+        forall|s: GoldInfo| gold_valid(s) && s.addr_first != 0
+            && old(buffer).rest() == #[trigger] enc_gold_info(s)
+            ==> r is Ok
+                && r->Ok_0.name@ == s.name && r->Ok_0.map@ == s.map && r->Ok_0.folder@ == s.folder && r->Ok_0.game_mode@ == s.game
+                && r->Ok_0.players_online == s.players && r->Ok_0.players_maximum == s.max_players && r->Ok_0.protocol_version == s.protocol
+                && r->Ok_0.server_type == gold_server(s.server_type) && r->Ok_0.environment_type == gold_env(s.environment)
+                && r->Ok_0.has_password == (s.visibility == 1) && r->Ok_0.is_mod == (s.is_mod == 1)
+                && r->Ok_0.vac_secured == (s.vac == 1) && r->Ok_0.players_bots == s.bots
+                && r->Ok_0.appid == 0 && r->Ok_0.the_ship is None && r->Ok_0.extra_data is None && r->Ok_0.game_version@.len() == 0
+                && (s.is_mod == 1 ==> r->Ok_0.mod_data is Some
+                        && r->Ok_0.mod_data->Some_0.link@ == s.link && r->Ok_0.mod_data->Some_0.download_link@ == s.download_link
+                        && r->Ok_0.mod_data->Some_0.version == s.version && r->Ok_0.mod_data->Some_0.size == s.size
+                        && r->Ok_0.mod_data->Some_0.multiplayer_only == (s.mod_type == 1) && r->Ok_0.mod_data->Some_0.has_own_dll == (s.dll == 1))
+                && (s.is_mod != 1 ==> r->Ok_0.mod_data is None),
+}
+body_start {
+    broadcast use lemma_cstr_wire, group_wire;
+}
+@*/
+}
+
+impl ValveProtocol {
+/*@ fn file=crates/lib/src/protocols/valve/protocol.rs impl="impl ValveProtocol" name=get_request_data props=C10,C01 assume=kani:retry_wiring_valve
+spec {
+    ensures final(self).retry_count == old(self).retry_count,
+}
+@*/
+/*@ fn file=crates/lib/src/protocols/valve/protocol.rs impl="impl ValveProtocol" name=get_kind_request_data props=C09,C01
+use R18
+spec {
+    ensures final(self).retry_count == old(self).retry_count,
 }
 @*/
 }
